@@ -447,7 +447,11 @@ class W3PerDocReader(base.PerDocumentReader):
 
         lenfield = _lenfield(fieldname)
         reader = self._cached_reader(lenfield, LENGTHS_COLUMN)
-        length = byte_to_length(op(reader))
+        if reader is None:
+            # No document in this segment has the field
+            length = 0
+        else:
+            length = byte_to_length(op(reader))
         cache[fieldname] = length
         return length
 
